@@ -35,7 +35,7 @@ func init() {
 					cells = append(cells, "pair/"+pos+"/"+rel)
 				}
 			}
-			return append(cells, "allowed", "denied", "wire")
+			return append(cells, "allowed", "denied", "wire", "hook", "long-chain", "scale")
 		},
 	})
 }
@@ -50,7 +50,9 @@ func c02Scenario(cmds []string) *chain.Scenario {
 	return s
 }
 
-func c02Run(w *mon.W, cmds []string, wire int) {
+func c02Run(w *mon.W, cmds []string, wire int) { c02RunH(w, cmds, wire, false) }
+
+func c02RunH(w *mon.W, cmds []string, wire int, hook bool) {
 	s := c02Scenario(cmds)
 	s.Wire = wire
 	b, err := s.Build(w.Rng)
@@ -63,8 +65,14 @@ func c02Run(w *mon.W, cmds []string, wire int) {
 		w.Inconclusive("C02 generator bug: principals not conforming: " + pwhy)
 		return
 	}
-	e := b.Inv.ExecutionAllowed(b.Loader)
+	e := allowed(b.Inv, b.Loader, hook)
 	w.Eval(1)
+	if hook {
+		w.Cover("hook")
+	}
+	if len(cmds) > 9 {
+		w.Cover("long-chain")
+	}
 	nontrivial := false
 	for i := 0; i+1 < len(cmds); i++ {
 		pos := "middle"
@@ -174,6 +182,52 @@ func runC02(w *mon.W) {
 				cmds[k] = randCmd()
 			}
 		}
-		c02Run(w, cmds, w.Rng.IntN(5))
+		c02RunH(w, cmds, w.Rng.IntN(5), w.Rng.IntN(3) == 0)
+	}
+	// scale family: long chains (9..48 links), deep commands (up to 40 segments), long and
+	// non-ASCII segments (up to 300 bytes); conforming descending paths with zero or one
+	// widening link at a random position
+	bigSeg := func() string {
+		switch w.Rng.IntN(5) {
+		case 0:
+			return strings.Repeat(gen.Pick(w.Rng, []string{"a", "é", "ほ", "x-"}), 1+w.Rng.IntN(150))
+		case 1:
+			return gen.Pick(w.Rng, []string{"é", "è", "ほげ", "ふが", "σ"})
+		}
+		return gen.Pick(w.Rng, segs)
+	}
+	for i := 0; i < w.Share(w.Pick(160, 3000)); i++ {
+		n := 9 + w.Rng.IntN(40)
+		if i%4 == 0 {
+			n = 1 + w.Rng.IntN(8)
+		}
+		depth := 1 + w.Rng.IntN(40)
+		sg := make([]string, depth)
+		for k := range sg {
+			sg[k] = bigSeg()
+		}
+		cmds := make([]string, n+1)
+		for k := 0; k <= n; k++ {
+			cmds[k] = ref.CmdFromSegments(sg)
+			if len(sg) > 0 && w.Rng.IntN(n+1) < depth {
+				sg = sg[:len(sg)-1]
+			}
+		}
+		switch w.Rng.IntN(3) {
+		case 0:
+			// one widening link: position k gets a command that does not cover its predecessor
+			k := 1 + w.Rng.IntN(n)
+			prev := ref.CmdSegments(cmds[k-1])
+			switch {
+			case len(prev) > 0 && w.Rng.IntN(2) == 0:
+				// sibling in the last segment (shares a textual prefix)
+				alt := append(append([]string{}, prev[:len(prev)-1]...), prev[len(prev)-1]+"x")
+				cmds[k] = ref.CmdFromSegments(alt)
+			default:
+				cmds[k] = ref.CmdFromSegments(append(append([]string{}, prev...), "deeper"))
+			}
+		}
+		c02RunH(w, cmds, w.Rng.IntN(5), w.Rng.IntN(3) == 0)
+		w.Cover("scale")
 	}
 }
